@@ -4,15 +4,16 @@
 // C14 O-3 — masking kernel: `apply_mask` (unsafe align_to_mut fast path) == byte-wise XOR with the
 // 4-byte mask, for every sub-slice start alignment and length, and touches nothing outside.
 use super::*;
+include!(concat!(env!("VERIF_HARNESS"), "/common/tracing_stub.rs"));
 
-fn mask_lemma<const LEN: usize>() {
+fn mask_lemma(max_len: usize) {
     // u32-aligned backing store so that `off` controls the alignment of the slice start exactly
     let mut words: [u32; 6] = kani::any();
     let orig = words;
     let mask: [u8; 4] = kani::any();
     let off: usize = kani::any();
-    kani::assume(off <= 3);
-    let len: usize = LEN; // concrete per harness; offset, contents and mask symbolic
+    let len: usize = kani::any();
+    kani::assume(off <= 3 && len <= max_len);
     {
         let bytes: &mut [u8; 24] = unsafe { &mut *(words.as_mut_ptr() as *mut [u8; 24]) };
         apply_mask(&mut bytes[off..off + len], mask);
@@ -28,9 +29,10 @@ fn mask_lemma<const LEN: usize>() {
         }
         i += 1;
     }
-    kani::cover!(off == 0 && LEN >= 4, "aligned start: fast path from the first byte");
-    kani::cover!(off == 1, "prefix of 3 unaligned bytes");
-    kani::cover!(off == 3, "prefix of 1 unaligned byte");
+    kani::cover!(off == 0 && len >= 8, "aligned start: fast path from the first byte");
+    kani::cover!(off == 1 && len >= 8, "prefix of 3 unaligned bytes then whole words");
+    kani::cover!(off == 3 && len == 6, "prefix of 1 unaligned byte, one word, 1 suffix byte");
+    kani::cover!(len == 0, "empty slice");
     kani::cover!(true, "harness end reached");
 }
 
@@ -54,46 +56,21 @@ fn involution_lemma<const LEN: usize>() {
     kani::cover!(true, "harness end reached");
 }
 
-// ---- harness instances (generated): slice length concrete, start offset 0..3 / contents / mask symbolic
+// ---- harness instances: slice start offset 0..3, length 0..=N, contents and mask all symbolic
 #[kani::proof]
+#[kani::stub(tracing::callsite::DefaultCallsite::register, stub_tracing_register)]
 #[kani::unwind(26)]
-fn c14_mask_len0_3() {
-    mask_lemma::<0>();
-    mask_lemma::<1>();
-    mask_lemma::<2>();
-    mask_lemma::<3>();
+fn c14_mask_len_le12() {
+    mask_lemma(12);
 }
 #[kani::proof]
+#[kani::stub(tracing::callsite::DefaultCallsite::register, stub_tracing_register)]
 #[kani::unwind(26)]
-fn c14_mask_len4_7() {
-    mask_lemma::<4>();
-    mask_lemma::<5>();
-    mask_lemma::<6>();
-    mask_lemma::<7>();
+fn c14_mask_len_le20_t() {
+    mask_lemma(20);
 }
 #[kani::proof]
-#[kani::unwind(26)]
-fn c14_mask_len8_11() {
-    mask_lemma::<8>();
-    mask_lemma::<9>();
-    mask_lemma::<10>();
-    mask_lemma::<11>();
-}
-#[kani::proof]
-#[kani::unwind(26)]
-fn c14_mask_len12_13() {
-    mask_lemma::<12>();
-    mask_lemma::<13>();
-}
-#[kani::proof]
-#[kani::unwind(26)]
-fn c14_mask_len16_20_t() {
-    mask_lemma::<16>();
-    mask_lemma::<17>();
-    mask_lemma::<19>();
-    mask_lemma::<20>();
-}
-#[kani::proof]
+#[kani::stub(tracing::callsite::DefaultCallsite::register, stub_tracing_register)]
 #[kani::unwind(26)]
 fn c14_mask_involution() {
     involution_lemma::<5>();
